@@ -212,6 +212,10 @@ func c08Project(mi *index.MasterIndex, vals []c08Entry) (lookupOK, sizeOK bool) 
 // true hash with the repository key whose single blob has the given offset; then the real CLI is run in
 // a subprocess (a panic in a loader goroutine cannot be recovered in-process).
 func c08RejectProbe(c *vctx, name string, offset uint64) error {
+	return c08RejectProbeRaw(c, name, offset, c08ID('p', 1).String())
+}
+
+func c08RejectProbeRaw(c *vctx, name string, offset uint64, packID string) error {
 	e := newVenv(c, name)
 	src := filepath.Join(e.base, "src")
 	if err := os.MkdirAll(src, 0o755); err != nil {
@@ -227,7 +231,7 @@ func c08RejectProbe(c *vctx, name string, offset uint64) error {
 		return err
 	}
 	raw := fmt.Sprintf(`{"packs":[{"id":"%s","blobs":[{"id":"%s","type":"data","offset":%d,"length":40}]}]}`,
-		c08ID('p', 1).String(), c08ID('b', 1).String(), offset)
+		packID, c08ID('b', 1).String(), offset)
 	var fileID restic.ID
 	_, _, err := e.run(func(ctx context.Context, gopts global.Options) error {
 		repo, err := e.openRepo(ctx)
@@ -242,7 +246,7 @@ func c08RejectProbe(c *vctx, name string, offset uint64) error {
 	}
 	crashed, errored := false, false
 	var report []string
-	for _, args := range [][]string{{"ls", "latest"}, {"list", "blobs"}, {"unlock"}, {"check"}} {
+	for _, args := range [][]string{{"ls", "latest"}, {"list", "blobs"}, {"unlock"}, {"check"}, {"unlock"}, {"repair", "index"}, {"unlock"}, {"prune"}} {
 		cmd := exec.Command(os.Args[0], append([]string{"-r", e.repo, "--no-cache"}, args...)...)
 		var env []string
 		for _, kv := range os.Environ() {
@@ -273,6 +277,9 @@ func c08RejectProbe(c *vctx, name string, offset uint64) error {
 	if offset > 4294967295 {
 		kind = "index-oversized-value"
 	}
+	if packID == (restic.ID{}).String() {
+		kind = "index-null-pack-id"
+	}
 	c.Info(name, report)
 	c.Case(kind, true, 1, fmt.Sprintf("C08m.CReject [(1, [(%d, 1, %d, 40, 0)])] %s %s", uint64(restic.DataBlob), offset, coqBool(crashed), coqBool(errored)),
 		fmt.Sprintf("index file %s = %s; %s", fileID.Str(), raw, strings.Join(report, "; ")))
@@ -289,6 +296,9 @@ func engineC08(c *vctx) error {
 		return err
 	}
 	if err := c08RejectProbe(c, "oversized", 4294967296); err != nil {
+		return err
+	}
+	if err := c08RejectProbeRaw(c, "nullpack", 40, (restic.ID{}).String()); err != nil {
 		return err
 	}
 
